@@ -7,10 +7,11 @@ namespace GoLevel.Dur
 /-- `RunOK` when a journal other than the current one is removed after the commit -/
 theorem RunOK.rmJ {cfg : Cfg} {s : St} {d : Disk} (h : RunOK cfg s d) (j' : Job) (n : Nat) (hn : n ≠ s.jcur)
     (hnc : ¬ FlushPending { s with job := some j' })
-    (hmfd : MfdOK { s with job := some j' } { d with journals := d.journals.erase n }) :
+    (hmfd : MfdOK { s with job := some j' } { d with journals := d.journals.erase n })
+    (hlimbo : LimboOK { s with job := some j' } { d with journals := d.journals.erase n }) :
     RunOK cfg { s with job := some j' } { d with journals := d.journals.erase n } := by
-  obtain ⟨r1, r2, r3, r4, r5, r6, r7, r8, r9⟩ := h
-  refine ⟨r1, ⟨hmfd, r2.2⟩, ?_, ?_, ⟨?_, r5.2⟩, r6, ?_, ?_, fun hc => by cases hc⟩
+  obtain ⟨r1, r2, r3, r4, r5, r6, r7, r8, r9, r10⟩ := h
+  refine ⟨r1, ⟨hmfd, r2.2⟩, ?_, ?_, ⟨?_, r5.2⟩, r6, ?_, ?_, (fun hc => by cases hc), hlimbo⟩
   · show Holds (lookup (d.journals.erase n) s.jcur) _
     rw [lookup_erase, if_neg (fun e => hn e.symm)]
     exact r3
@@ -44,7 +45,7 @@ theorem RecOK.rmJ {cfg : Cfg} {s : St} {d : Disk} {r : Recov} (h : RecOK cfg s d
 
 /-- the manifest clause after the commit, unpacked -/
 theorem JobOK.post_facts {cfg : Cfg} {s : St} {d : Disk} {j : Job} (h : JobOK cfg s d j) (hp : j.pc.post = true) :
-    Settled cfg s d (Mirror s) ∧ (∀ e, j.edit = some e → s.manifestOpen = true ∧ ∀ x, e.jn = some x → s.stJn = x) := by
+    Settled cfg s d (MirrorL s) ∧ (∀ e, j.edit = some e → s.manifestOpen = true ∧ ∀ x, e.jn = some x → s.stJn = x) := by
   have := h.manifest
   unfold JobManifestOK at this
   cases he : j.edit with
@@ -52,7 +53,7 @@ theorem JobOK.post_facts {cfg : Cfg} {s : St} {d : Disk} {j : Job} (h : JobOK cf
   | some e =>
     rw [he] at this
     simp only at this
-    have key : JobManifest cfg s d e j.pc = (s.manifestOpen = true ∧ Settled cfg s d (Mirror s) ∧
+    have key : JobManifest cfg s d e j.pc = (s.manifestOpen = true ∧ Settled cfg s d (MirrorL s) ∧
         ∀ x, e.jn = some x → s.stJn = x) := by
       cases hpc : j.pc <;> rw [hpc] at hp <;> simp_all [JPc.post, JobManifest]
     rw [key] at this
@@ -60,17 +61,17 @@ theorem JobOK.post_facts {cfg : Cfg} {s : St} {d : Disk} {j : Job} (h : JobOK cf
 
 /-- in the post-commit pcs the running process has written the manifest: it is settled -/
 theorem JobOK.post_settled {cfg : Cfg} {s : St} {d : Disk} {j : Job} (h : JobOK cfg s d j) (hp : j.pc.post = true)
-    (hopen : s.manifestOpen = true) :
+    (hopen : s.manifestOpen = true) (hl : s.limbo = none) :
     ∃ mf v, curManifest d = some mf ∧ mf.unsynced = [] ∧ lastView cfg d = some v ∧ viewAt cfg mf 0 = some v ∧
       Mirror s v := by
   obtain ⟨hs, _⟩ := h.post_facts hp
   unfold Settled at hs
   rw [holds_iff] at hs
-  obtain ⟨mf, hc, hu, hl⟩ := hs
-  have hu := hu hopen
-  rw [holds_iff] at hl
-  obtain ⟨v, hv, hm⟩ := hl
-  refine ⟨mf, v, hc, hu, hv, ?_, hm⟩
+  obtain ⟨mf, hc, hu, hl'⟩ := hs
+  have hu := hu hopen hl
+  rw [holds_iff] at hl'
+  obtain ⟨v, hv, hm⟩ := hl'
+  refine ⟨mf, v, hc, hu, hv, ?_, (MirrorL.of_none hl).1 hm⟩
   rw [lastView_eq hc, hu] at hv
   exact hv
 
@@ -110,6 +111,72 @@ theorem Inv.post_open {cfg : Cfg} {s : St} {d : Disk} (h : Inv cfg s d) {j : Job
       obtain ⟨x, _, hk⟩ := hk
       rw [he] at hk
       exact absurd hk id
+
+/-- behind the commit the storage is not ahead of the session — except beside the job that only drops an empty
+    frozen buffer (it has no edit), whose journal holds nothing that must survive -/
+theorem Inv.post_cases {cfg : Cfg} {s : St} {d : Disk} (h : Inv cfg s d) {j : Job} (hj : s.job = some j)
+    (hp : j.pc.post = true) :
+    (s.limbo = none ∧ j.edit ≠ none) ∨ (j.edit = none ∧ j.kind = .flush ∧ s.phase = .running ∧ j.rmTables = [] ∧
+      ∃ jf, s.jfrozen = some jf ∧ j.rmJournals = [jf] ∧ jf < s.jcur ∧
+        ∀ p ∈ d.journals, p.1 = jf → ∀ g ∈ p.2.all, g ∉ must s) := by
+  have hok := h.job
+  rw [hj] at hok
+  have hok : JobOK cfg s d j := hok
+  have hjb : j.pc.beforeCommit = false := by cases hpc : j.pc <;> rw [hpc] at hp <;> simp_all [JPc.post, JPc.beforeCommit]
+  cases he : j.edit with
+  | some e => exact Or.inl ⟨h.limbo_none_of_post hj he hjb, fun hx => by cases hx⟩
+  | none =>
+    right
+    have hk := hok.kind
+    unfold JobKindOK at hk
+    rcases hok.kinds with hkk | hkk | hkk | hkk | hkk <;> rw [hkk] at hk <;> simp only at hk
+    rotate_right 2
+    · rw [he] at hk; exact absurd hk.2.2.2 (by simp)
+    · obtain ⟨_, _, _, _, hk⟩ := hk
+      rw [he] at hk
+      revert hk
+      cases s.tr <;> simp [Holds]
+    · obtain ⟨hph, hk⟩ := hk
+      have hfr := (h.run hph).frozen
+      rcases frozenOK_iff.1 hfr with ⟨h1, h2⟩ | ⟨fz, jf, h1, h2, f1, f2, f3, f4, f5, f6⟩
+      · rw [h1, h2] at hk; exact absurd hk id
+      · rw [h1, h2, he] at hk
+        simp only at hk
+        obtain ⟨hfz, _, hrmj, _⟩ := hk
+        refine ⟨rfl, hkk, hph, ?_, jf, h2, hrmj, f1, fun p hp hpn g hg hm => ?_⟩
+        · rcases hok.one.2 with h3 | h3 | h3
+          · exact h3
+          · rw [hkk] at h3; cases h3
+          · rw [hkk] at h3; cases h3
+        · have := (f5 p hp hpn).2.1 g hg hm
+          rw [hfz] at this; cases this
+    · obtain ⟨_, _, hk⟩ := hk
+      rw [holds_iff] at hk
+      obtain ⟨r, _, hk⟩ := hk
+      rw [holds_iff] at hk
+      obtain ⟨o, _, _, _, hk⟩ := hk
+      rw [holds_iff] at hk
+      obtain ⟨x, _, hk⟩ := hk
+      rw [he] at hk
+      exact absurd hk id
+    · obtain ⟨_, hk⟩ := hk
+      rw [holds_iff] at hk
+      obtain ⟨r, _, _, _, _, hk⟩ := hk
+      rw [holds_iff] at hk
+      obtain ⟨x, _, hk⟩ := hk
+      rw [he] at hk
+      exact absurd hk id
+
+/-- the limbo facts along the removals -/
+theorem Inv.post_limbo {cfg : Cfg} {s : St} {d d' : Disk} (h : Inv cfg s d) {j : Job} (hj : s.job = some j)
+    (hp : j.pc.post = true) (pc' : JPc) (hp' : pc'.post = true) (et : j.edit = none → d'.tables = d.tables) :
+    LimboOK { s with job := some { j with pc := pc' }, nextFile := s.nextFile } d' := by
+  rcases h.post_cases hj hp with ⟨hl, _⟩ | ⟨he, _, hr, _⟩
+  · exact LimboOK.of_none hl
+  · exact (h.run hr).limbo.job_pc hj { j with pc := pc' } s.nextFile rfl rfl
+      (fun hx => by cases hpc : j.pc <;> rw [hpc] at hp hx <;> first | (simp [JPc.retry] at hx; done) | (simp [JPc.post] at hp; done))
+      (Or.inl he) (et he)
+      (Nat.le_refl _)
 
 /-- `JobOK` for the next pc among the removals; the caller supplies what depends on the disk -/
 theorem JobOK.post_next {cfg : Cfg} {s : St} {d d' : Disk} {j : Job} (h : JobOK cfg s d j) (hp : j.pc.post = true)
@@ -151,7 +218,7 @@ theorem JobOK.post_next {cfg : Cfg} {s : St} {d d' : Disk} {j : Job} (h : JobOK 
       rw [he] at h3
       simp only at h3 ⊢
       have key : ∀ pc : JPc, pc.post = true → ∀ (s0 : St) (d0 : Disk),
-          JobManifest cfg s0 d0 e pc = (s0.manifestOpen = true ∧ Settled cfg s0 d0 (Mirror s0) ∧
+          JobManifest cfg s0 d0 e pc = (s0.manifestOpen = true ∧ Settled cfg s0 d0 (MirrorL s0) ∧
             ∀ x, e.jn = some x → s0.stJn = x) := by
         intro pc hpc s0 d0
         cases pc <;> simp_all [JPc.post, JobManifest]
